@@ -209,7 +209,7 @@ func (w *kWorld) reimport(mark func(string)) swapReimport {
 	return out
 }
 
-const nSwapMutations = 14
+const nSwapMutations = 15
 
 func (w *kWorld) mutatedGenesis(kind, sel int, mark func(string)) (term string, valid bool, cls Class) {
 	bctx, _ := w.ctx.CacheContext()
@@ -316,6 +316,33 @@ func (w *kWorld) mutatedGenesis(kind, sel int, mark func(string)) (term string, 
 			r.PoolID = kDenoms[y] + ":" + kDenoms[x]
 			gs.ShareRecords[sel%ns] = r
 			name = "share-record-id-reversed"
+		}
+	case 13: // a share record split in two records of the same depositor and pool (the sum is unchanged:
+		// only the duplicate check can refuse it) — preferring a depositor's record that is NOT its
+		// first-listed pool, since a duplicate check that only remembers the first pool misses that
+		if ns > 0 {
+			i := sel % ns
+			firstOf := map[string]int{}
+			for j, r := range gs.ShareRecords {
+				if _, ok := firstOf[r.Depositor.String()]; !ok {
+					firstOf[r.Depositor.String()] = j
+				}
+			}
+			for j := range gs.ShareRecords {
+				k := (i + j) % ns
+				if firstOf[gs.ShareRecords[k].Depositor.String()] != k && gs.ShareRecords[k].SharesOwned.GT(one) {
+					i = k
+					break
+				}
+			}
+			if r := gs.ShareRecords[i]; r.SharesOwned.GT(one) {
+				a, b := r, r
+				a.SharesOwned = r.SharesOwned.Sub(one)
+				b.SharesOwned = one
+				gs.ShareRecords[i] = a
+				gs.ShareRecords = append(gs.ShareRecords, b)
+				name = "share-record-split-in-two"
+			}
 		}
 	default: // shares moved between two depositors of one pool (accepted: the sum is unchanged)
 		if ns > 1 {
